@@ -164,8 +164,7 @@ theorem dead_sender_payload_is_discarded (E : Env) (data : Bytes) (c c1 : Ctx) (
     · exact Or.inr (Or.inl rfl)
     · split
       · exact Or.inr (Or.inr (Or.inl rfl))
-      · generalize (if (decide (rest.length ≥ Gen.sectionMinBytes) && h.msg != .broadcast) = true then _ else some ([], rest) : Option (List Member × Bytes)) = parsed
-        cases parsed with
+      · cases hp : parseSection E h rest with
         | none => exact Or.inr (Or.inr (Or.inr (Or.inl rfl)))
         | some p =>
           obtain ⟨updates, tail⟩ := p
